@@ -17,18 +17,21 @@ static const uint8_t MS[16] = {1, 2, 3, 4, 5, 6, 7, 8, 9, 10, 11, 12, 13, 14, 15
 static const uint8_t SALT[8] = {0x9e, 0x7c, 0xa9, 0x22, 0x23, 0x78, 0x63, 0x40};
 static const uint8_t IDCTX[4] = {0x37, 0xcb, 0xf3, 0x21};
 
-enum { O_GET0, O_GET1, O_REG0, O_REG1, O_CAN0, O_CAN1, O_CHG, O_N };
-static const char *oname[] = {"get(t0)", "get(t1)", "reg(t0)", "reg(t1)", "cancel(t0)", "cancel(t1)", "change"};
+enum { O_GET0, O_GET1, O_REG0, O_REG1, O_CAN0, O_CAN1, O_CHG, O_N, O_TAMPER = O_N, O_REPLAY, O_UNKKID, O_NREJ };
+static const char *oname[] = {"get(t0)", "get(t1)", "reg(t0)", "reg(t1)", "cancel(t0)", "cancel(t1)", "change",
+                              /* family seqrej: datagrams the server must reject, in between */
+                              "tampered", "replayed", "unknown-kid"};
 
 struct scfg {
   char name[64];
   int depth, idctx, con;
+  int nops; /* size of the alphabet: O_N, or O_NREJ for the family with rejected datagrams */
 };
 
 static coap_context_t *sctx;
 static coap_resource_t *res_o;
 static coap_address_t srv, cli;
-static refoscore_ctx_t rc;
+static refoscore_ctx_t rc, rc_unk; /* rc_unk: same secret, a sender id the server has no context for */
 static int handler_calls;
 static uint16_t next_mid;
 #define MAXCAP 8
@@ -100,7 +103,8 @@ server_start(const struct scfg *c) {
   coap_resource_set_get_observable(res_o, 1);
   coap_add_resource(sctx, res_o);
   refoscore_params_t p = {MS, 16, SALT, 8, (const uint8_t *)"\x02", 1, (const uint8_t *)"\x01", 1, IDCTX, 4, c->idctx};
-  return refoscore_derive(&p, &rc) == REFOSCORE_OK;
+  refoscore_params_t pu = {MS, 16, SALT, 8, (const uint8_t *)"\x05", 1, (const uint8_t *)"\x01", 1, IDCTX, 4, c->idctx};
+  return refoscore_derive(&p, &rc) == REFOSCORE_OK && refoscore_derive(&pu, &rc_unk) == REFOSCORE_OK;
 }
 
 struct tokstate {
@@ -117,8 +121,8 @@ case_seq(uint64_t idx, void *arg) {
   char hist[120] = "";
   size_t hl = 0;
   for (int i = 0; i < c->depth; i++) {
-    ops[i] = (int)(x % O_N);
-    x /= O_N;
+    ops[i] = (int)(x % (unsigned)c->nops);
+    x /= (unsigned)c->nops;
     hl += (size_t)snprintf(hist + hl, sizeof hist - hl, "%s%s", i ? " " : "", oname[ops[i]]);
   }
   ns_init();
@@ -135,6 +139,8 @@ case_seq(uint64_t idx, void *arg) {
   strcpy(ts[1].last, "none");
   uint64_t piv = 0;
   int failed = 0;
+  uint8_t lastreq[200];
+  size_t lastn = 0;
   for (int i = 0; i < c->depth && !failed; i++) {
     int op = ops[i];
     ncap = 0;
@@ -168,6 +174,48 @@ case_seq(uint64_t idx, void *arg) {
       }
       continue;
     }
+    if (op >= O_TAMPER) {
+      /* a datagram the server must reject without a handler call; what it answers (an unprotected 4.0x) is not judged
+       * here, what it sends afterwards on the same session is: later steps go on as if this one had not happened */
+      uint8_t buf[200];
+      int n = 0;
+      if (op == O_REPLAY) {
+        if (!lastn)
+          continue;
+        memcpy(buf, lastreq, lastn);
+        n = (int)lastn;
+        buf[2] = (uint8_t)(next_mid >> 8);
+        buf[3] = (uint8_t)next_mid;
+        next_mid++;
+      } else {
+        refoscore_msg_t in, out;
+        refoscore_reqbind_t bind;
+        refoscore_msg_init(&in, 0x01);
+        refoscore_msg_add_opt(&in, 11, "o", 1);
+        uint8_t tok = 0xA7;
+        if (refoscore_protect_request(op == O_UNKKID ? &rc_unk : &rc, &in, piv++, &out, &bind) != REFOSCORE_OK ||
+            (n = refoscore_coap_encode(&out, c->con ? 0 : 1, next_mid++, &tok, 1, buf, sizeof buf)) <= 0) {
+          vx_fail("harness:protect", "reference could not protect the request");
+          break;
+        }
+        if (op == O_TAMPER)
+          buf[n - 1] ^= 0x10;
+      }
+      int before = handler_calls;
+      ns_inject_now(&cli, &srv, buf, (size_t)n);
+      ns_prepare_all();
+      while (ns_inflight_count())
+        ns_drop(0);
+      ack_all();
+      vxp_count(4, 1);
+      if (handler_calls != before) {
+        char sig[100];
+        snprintf(sig, sizeof sig, "seq:handler-called-for:%s", oname[op]);
+        vx_fail(sig, "idctx=%d history [%s]: step %d (%s datagram) reached the application handler", c->idctx, hist, i, oname[op]);
+        failed = 1;
+      }
+      continue;
+    }
     int t = (op - O_GET0) % 2;
     int kind = (op - O_GET0) / 2; /* 0 get, 1 register, 2 cancel */
     if (kind == 0 && ts[t].registered) {
@@ -195,6 +243,8 @@ case_seq(uint64_t idx, void *arg) {
       break;
     }
     int before = handler_calls;
+    memcpy(lastreq, buf, (size_t)n);
+    lastn = (size_t)n;
     ns_inject_now(&cli, &srv, buf, (size_t)n);
     ns_prepare_all();
     while (ns_inflight_count())
@@ -243,7 +293,7 @@ case_seq(uint64_t idx, void *arg) {
   sctx = NULL;
   ns_fini();
   vxp_count(0, 1);
-  vxp_distinct(vx_fnv(ops, sizeof(int) * (size_t)c->depth, (uint64_t)(c->idctx * 2 + c->con)));
+  vxp_distinct(vx_fnv(ops, sizeof(int) * (size_t)c->depth, (uint64_t)(c->idctx * 2 + c->con + 4 * c->nops)));
   if (idx % 397 == 5)
     vxp_sample("idctx=%d con=%d [%s]: all responses and notifications verified by the reference", c->idctx, c->con, hist);
 }
@@ -257,18 +307,25 @@ main(int argc, char **argv) {
     fprintf(stderr, "refoscore self-test failed\n");
     return 2;
   }
-  static struct scfg cf[16];
+  static struct scfg cf[24];
   int ncf = 0;
   for (int d = 1; d <= (T ? 6 : 5); d++) {
     if (d > 2 && d < (T ? 6 : 5))
       continue; /* every prefix of a longer history is judged step by step */
     for (int ic = 0; ic < 2; ic++)
       for (int con = 0; con < 2; con++) {
-        struct scfg c = {.depth = d, .idctx = ic, .con = con};
+        struct scfg c = {.depth = d, .idctx = ic, .con = con, .nops = O_N};
         snprintf(c.name, sizeof c.name, "seq:d=%d:idctx=%d:%s", d, ic, con ? "con" : "non");
         cf[ncf++] = c;
       }
   }
+  /* the same histories with datagrams in between that the server has to reject (tampered, replayed, unknown kid) */
+  for (int ic = 0; ic < 2; ic++)
+    for (int con = 0; con < 2; con++) {
+      struct scfg c = {.depth = T ? 5 : 4, .idctx = ic, .con = con, .nops = O_NREJ};
+      snprintf(c.name, sizeof c.name, "seqrej:d=%d:idctx=%d:%s", c.depth, ic, con ? "con" : "non");
+      cf[ncf++] = c;
+    }
   for (int i = 0; i < ncf; i++)
     if (vxp_replay_if_match(cf[i].name, case_seq, &cf[i]))
       return 0;
@@ -281,7 +338,7 @@ main(int argc, char **argv) {
   for (int i = 0; i < ncf; i++) {
     uint64_t n = 1;
     for (int k = 0; k < cf[i].depth; k++)
-      n *= O_N;
+      n *= (unsigned)cf[i].nops;
     struct vxp_config c = {.space = cf[i].name, .total = n, .chunk = 16};
     vxp_enumerate(&c, case_seq, &cf[i], &st);
     total += st.done;
@@ -292,9 +349,12 @@ main(int argc, char **argv) {
   vx_ev_int("seq.responses_verified_by_reference", (long long)vxp_counter(1));
   vx_ev_int("seq.notifications_verified_by_reference", (long long)vxp_counter(2));
   vx_ev_int("seq.histories_cut_at_token_reuse_during_observation", (long long)vxp_counter(3));
+  vx_ev_int("seq.rejected_datagrams_in_between", (long long)vxp_counter(4));
   vx_ev_rule("stage c14seq: all histories of depth 1, 2 and 5 (thorough 6) over {GET, Observe register, Observe cancel} x two tokens + resource "
              "change, requests protected by the reference implementation with increasing Partial IVs, against a real libcoap OSCORE server "
              "(with / without ID Context, CON / NON); every response must verify under the binding (kid, Partial IV, nonce) of the request it "
-             "answers and every notification under the binding of the latest registration on its token");
+             "answers and every notification under the binding of the latest registration on its token; family seqrej: depth 4 (thorough 5) "
+             "with three more letters -- a tampered, a replayed and an unknown-kid datagram, none of which may reach a handler or change how "
+             "what follows is protected");
   return vx_finish();
 }
